@@ -396,7 +396,19 @@ def build_array(spec):
     else:
         arr.coord = coord[0]
     if spec.get("box"):
-        box = np.array(own_vectors(*spec["box"]), dtype=np.float32)
+        vec = own_vectors(*spec["box"][:6])
+        if len(spec["box"]) > 6:
+            # the same cell in another orientation (first vector not along x): rotation about z, then about x
+            import math
+            pz, px = spec["box"][6], spec["box"][7]
+            cz, sz, cx, sx = math.cos(pz), math.sin(pz), math.cos(px), math.sin(px)
+            rot = []
+            for x, y, z in vec:
+                x, y = cz * x - sz * y, sz * x + cz * y
+                y, z = cx * y - sx * z, sx * y + cx * z
+                rot.append([x, y, z])
+            vec = rot
+        box = np.array(vec, dtype=np.float32)
         arr.box = np.stack([box] * m) if spec["stack"] else box
     if spec.get("bonds") is not None:
         arr.bonds = struc.BondList(n, np.array(spec["bonds"], dtype=np.int64).reshape(-1, 3))
@@ -557,6 +569,18 @@ def gen_spec(rng, flavour="valid"):
             # numbering: +1, same id (next residue gets another insertion code), forward jump, or DOWNWARDS
             # (20 -> 19, 18 -> 4: legal; the reader links consecutive residues by position unless the id grows by > 1)
             rid += 1 if r < 0.6 else (0 if r < 0.72 else (rng.randint(2, 5) if r < 0.86 else -rng.choice([1, 1, 2, 14])))
+    if len(used_chains) > 1 and rng.random() < 0.15:
+        # chains interleaved in array order (A, B, A, ...): residues stay uniquely identifiable, the order inside a
+        # chain is kept; backbone links are implied between array-consecutive residues only
+        st0 = res_starts(atoms)
+        queues = {}
+        for r in range(len(st0) - 1):
+            queues.setdefault(atoms[st0[r]][0], []).append(atoms[st0[r]:st0[r + 1]])
+        merged = []
+        while any(queues.values()):
+            ch = rng.choice([c for c, q in queues.items() if q])
+            merged += queues[ch].pop(0)
+        atoms = merged
     int_bound = rng.random() < 0.2
     _B = [127, 128, 129, 255, 256, 32767, 32768, 32769, 65535, 65536, 2147483647]
     if int_bound:
@@ -662,6 +686,8 @@ def gen_spec(rng, flavour="valid"):
             box = [mid_len, long_len, short_len, 90.0 + delta, 90.0, 90.0]
         else:                  # b short, a long: gamma
             box = [long_len, short_len, mid_len, 90.0, rng.choice([90.0, 95.0]), 90.0 + delta]
+    if box is not None and max(box[:3]) / min(box[:3]) < 50 and rng.random() < 0.3:
+        box = box + [rng.uniform(0.1, 3.0), rng.uniform(0.1, 3.0)]      # a box that is not in the standard orientation
     spec = {"atoms": atoms, "stack": stack, "coords": coords, "box": box, "bonds": bonds, "layout": rng.choice(["C", "C", "F"]),
             "has_charge": rng.random() < 0.5, "has_atom_id": rng.random() < 0.4,
             "b_factor": [rng.randint(0, 99999) / 100.0 for _ in range(n)] if rng.random() < 0.4 else None,
@@ -961,7 +987,7 @@ def gen_malformed(rng):
 
 
 def cases(rng, tier):
-    n = 400 if tier == "quick" else 5000
+    n = 340 if tier == "quick" else 5000
     for k in range(n):
         r = rng.random()
         if r < 0.34:
@@ -1007,6 +1033,11 @@ def _pep(n_res, names=("N", "CA", "C", "O"), rn=("ALA", "GLY")):
     return atoms
 
 
+def large_case_exact():
+    """2000 atoms x 2000 struct_conn rows = exactly FIND_MATCHES_SWITCH_THRESHOLD row pairs (still the dense matcher)."""
+    return {"kind": "large-dict", "ops": [], "n": 2000, "extra_bond": True}
+
+
 def large_case():
     """2001 one-atom residues, 2000 inter-residue bonds all starting at the FIRST atom: 2000 x 2001 row pairs exceed
     FIND_MATCHES_SWITCH_THRESHOLD, so get_structure uses _find_matches_by_dict (oracle only, BinaryCIF)."""
@@ -1029,11 +1060,18 @@ def _oracle_large(case):
     arr.element[:] = "C"
     arr.hetero[:] = True
     arr.coord = np.zeros((n, 3), dtype=np.float32)
-    bonds = np.array([[0, k, 1 + (k % 4)] for k in range(1, n)], dtype=np.int64)
+    blist = [[0, k, 1 + (k % 4)] for k in range(1, n)]
+    if case.get("extra_bond"):
+        blist.append([1, 2, 3])
+    bonds = np.array(blist, dtype=np.int64)
     arr.bonds = struc.BondList(n, bonds)
     v = []
-    if (n - 1) * n <= conv.FIND_MATCHES_SWITCH_THRESHOLD:
-        v.append(("C04/oracle/large-case-too-small", f"{(n - 1) * n} row pairs do not exceed FIND_MATCHES_SWITCH_THRESHOLD"))
+    pairs = len(blist) * n
+    if case.get("extra_bond"):
+        if pairs != conv.FIND_MATCHES_SWITCH_THRESHOLD:
+            v.append(("C04/oracle/large-case-not-on-threshold", f"{pairs} row pairs != FIND_MATCHES_SWITCH_THRESHOLD"))
+    elif pairs <= conv.FIND_MATCHES_SWITCH_THRESHOLD:
+        v.append(("C04/oracle/large-case-too-small", f"{pairs} row pairs do not exceed FIND_MATCHES_SWITCH_THRESHOLD"))
     with warnings.catch_warnings():
         warnings.simplefilter("ignore")
         f = pdbx.BinaryCIFFile()
@@ -1074,6 +1112,7 @@ def corpus():
     down = [a[:1] + [{1: 20, 2: 19, 3: 5, 4: 5, 5: 5, 6: 4}[a[1]], {4: "A", 5: "B"}.get(a[1], "")] + a[3:] for a in pep]
     out.append(_struct_case(rng, _mini(down, bb), "struct"))
     out.append(large_case())
+    out.append(large_case_exact())
     # atom / residue names whose concatenation collides: C-11H vs C1-1H in one ligand; XY:Z1-Q vs X:YZ1-Q
     lig2 = [["A", 1, "", "LG1", True, an, "C"] for an in ("C", "C1", "1H", "11H")]
     out.append(_struct_case(rng, _mini(lig2, [[0, 3, 1], [1, 2, 2]]), "struct"))
@@ -1279,9 +1318,8 @@ def _keys_arrays(keys):
 
 
 def run_impl(case):
-    from common import sandbox
     _setup()
-    res = sandbox.run_forked(_run_impl_inner, case, timeout=120)
+    res = _Worker.call("impl", case)
     if res[0] == "ok":
         return res[1]
     if res[0] == "err":
@@ -2086,12 +2124,92 @@ def _oracle_models(case):
     return v
 
 
+class _Worker:
+    """One persistent forked child executes run_impl / oracle requests (a fork per call costs ~35 ms, far too much
+    for ~900 calls).  If the child dies (signal) or hangs, the request's case gets the verdict and a new child is
+    forked for the next request - a crash of the code under test is a failing input, never a dead check."""
+    pid = None
+    to_child = from_child = None
+
+    @classmethod
+    def _spawn(cls):
+        import pickle
+        import struct as st
+        c_r, p_w = os.pipe()
+        p_r, c_w = os.pipe()
+        pid = os.fork()
+        if pid == 0:
+            os.close(p_w)
+            os.close(p_r)
+            fin, fout = os.fdopen(c_r, "rb"), os.fdopen(c_w, "wb")
+            try:
+                while True:
+                    head = fin.read(4)
+                    if len(head) < 4:
+                        break
+                    what, case = pickle.loads(fin.read(st.unpack("<I", head)[0]))
+                    try:
+                        res = ("ok", (_run_impl_inner if what == "impl" else _oracle_inner)(case))
+                    except BaseException as e:  # noqa: BLE001
+                        res = ("err", type(e).__name__, str(e)[:300])
+                    data = pickle.dumps(res)
+                    fout.write(st.pack("<I", len(data)) + data)
+                    fout.flush()
+            finally:
+                os._exit(0)
+        os.close(c_r)
+        os.close(c_w)
+        cls.pid, cls.to_child, cls.from_child = pid, os.fdopen(p_w, "wb"), os.fdopen(p_r, "rb")
+
+    @classmethod
+    def _kill(cls):
+        import signal
+        try:
+            os.kill(cls.pid, signal.SIGKILL)
+        except OSError:
+            pass
+        try:
+            _, status = os.waitpid(cls.pid, 0)
+        except OSError:
+            status = 0
+        for fh in (cls.to_child, cls.from_child):
+            try:
+                fh.close()
+            except Exception:  # noqa: BLE001
+                pass
+        cls.pid = None
+        return status
+
+    @classmethod
+    def call(cls, what, case, timeout=120):
+        import pickle
+        import select
+        import struct as st
+        if cls.pid is None:
+            cls._spawn()
+        try:
+            data = pickle.dumps((what, case))
+            cls.to_child.write(st.pack("<I", len(data)) + data)
+            cls.to_child.flush()
+            ready, _, _ = select.select([cls.from_child], [], [], timeout)
+            if not ready:
+                cls._kill()
+                return ("timeout",)
+            head = cls.from_child.read(4)
+            if len(head) < 4:
+                status = cls._kill()
+                return ("crash", os.WTERMSIG(status) if os.WIFSIGNALED(status) else -1)
+            return pickle.loads(cls.from_child.read(st.unpack("<I", head)[0]))
+        except (BrokenPipeError, OSError):
+            status = cls._kill()
+            return ("crash", os.WTERMSIG(status) if os.WIFSIGNALED(status) else -1)
+
+
 def oracle(case):
-    """Runs in a forked child: a crash or hang of the code under test (bonds.pyx, encoding.pyx) is a verdict with
-    this case as the failing input, never a dead check."""
-    from common import sandbox
+    """Runs in a (persistent) forked child: a crash or hang of the code under test (bonds.pyx, encoding.pyx) is a
+    verdict with this case as the failing input, never a dead check."""
     _setup()
-    res = sandbox.run_forked(_oracle_inner, case, timeout=120)
+    res = _Worker.call("oracle", case)
     if res[0] == "ok":
         return res[1]
     if res[0] == "err":
